@@ -157,11 +157,14 @@ fn fit_with<T: RealNumber + serde::Serialize, D: Distance<Vec<T>, T> + serde::Se
         let alg = if cover { KNNAlgorithmName::CoverTree } else { KNNAlgorithmName::LinearSearch };
         // builder calls in two orders (a setter that rebuilds from the defaults would lose earlier settings)
         let params = if data.len() % 2 == 0 { DBSCANParameters::default().with_eps(eps).with_min_samples(case.min_samples).with_algorithm(alg).with_distance(dist.clone()) } else { DBSCANParameters::default().with_distance(dist.clone()).with_algorithm(alg).with_min_samples(case.min_samples).with_eps(eps) };
-        let m = DBSCAN::fit(&x, params).map_err(|e| format!("fit: {}", e))?;
+        // inherent entry points, or (every other case) the generic traits of smartcore::api
+        let via_trait = (data.len() / 2) % 2 == 1;
+        let m: DBSCAN<T, D> = if via_trait { unsup_fit(&x, params) } else { DBSCAN::fit(&x, params) }.map_err(|e| format!("fit: {}", e))?;
         let v = serde_json::to_value(&m).map_err(|e| format!("serialise: {}", e))?;
         let labels: Vec<i64> = v["cluster_labels"].as_array().ok_or("no cluster_labels")?.iter().map(|x| x.as_i64().unwrap_or(i64::MIN)).collect();
         let num_classes = v["num_classes"].as_u64().ok_or("no num_classes")? as usize;
-        let predictions: Vec<f64> = m.predict(&q).map_err(|e| format!("predict: {}", e))?.iter().map(|v| ft(*v)).collect();
+        let pr: Vec<T> = if via_trait { tr_predict(&m, &q) } else { m.predict(&q) }.map_err(|e| format!("predict: {}", e))?;
+        let predictions: Vec<f64> = pr.iter().map(|v| ft(*v)).collect();
         Ok(Fitted { labels, num_classes, predictions })
     })
 }
